@@ -1016,6 +1016,47 @@ pub mod locksplit {
     }
 }
 
+// ---------------------------------------------------------------- R-TAILMASK
+pub mod tailmask {
+    pub fn ok_count(words: &[u64], len: usize) -> u32 {
+        if len == 0 {
+            return 0;
+        }
+        let last = (len - 1) / 64;
+        let mut n = 0;
+        for w in &words[..last] {
+            n += w.count_ones();
+        }
+        let rem = len % 64;
+        let tail = if rem == 0 { words[last] } else { words[last] & ((1u64 << rem) - 1) };
+        n + tail.count_ones()
+    }
+    pub fn bad_count(words: &[u64], len: usize) -> u32 {
+        if len == 0 {
+            return 0;
+        }
+        let last = (len - 1) / 64;
+        let mut n = 0;
+        for w in &words[..last] {
+            n += w.count_ones();
+        }
+        let rem = len % 64;
+        let tail = words[last] & ((1u64 << rem) - 1);
+        n + tail.count_ones()
+    }
+    pub fn ok_rank(words: &[u64], pos: usize) -> u32 {
+        let mut n = 0;
+        for w in &words[..pos / 64] {
+            n += w.count_ones();
+        }
+        let rem = pos % 64;
+        if rem > 0 {
+            n += (words[pos / 64] & ((1u64 << rem) - 1)).count_ones();
+        }
+        n
+    }
+}
+
 // ---------------------------------------------------------------- R-VARIANT
 pub mod variant {
     pub enum Storage {
